@@ -118,6 +118,20 @@ func checkC16(p *Program, r *Result) {
 	checkPrefixLoops(p, r, "C16.p", pkgMcap)
 	r.rule("C16.e", "Go writer: footer summary_start is 0 only when no summary record was written (Python readers locate the summary through it)", 1)
 	checkSlotOwnership(p, r, "C16.o")
+	// the Python readers validate the CRCs of Go-written files: the Go writer's checksum scopes (C06) are conditions of C16
+	r.rule("C16.q", "Go writer: checksum scopes (C06) - validated by the Python readers", 10)
+	{
+		sub6 := newResult("C16", "sub")
+		checkC06(p, sub6)
+		for _, o := range sub6.Obls {
+			if o.Status == Note {
+				continue
+			}
+			o.Key = strings.Replace(o.Key, o.Rule+" |", "C16.q["+o.Rule+"] |", 1)
+			o.Rule = "C16.q"
+			r.Obls = append(r.Obls, o)
+		}
+	}
 	spec := sinkSpec()
 	R := p.reachSet(spec)
 	sub := newResult("C16", "sub")
